@@ -34,6 +34,9 @@ theorem firstOf_append_of_ne (l : Listener) (rs t : List Report) (h : rs ≠ [])
   | nil => exact absurd rfl h
   | cons a as => simp
 
+theorem firstOf_prefix (l : Listener) (rs : List Report) : firstOf l rs <+: rs.take 1 := by
+  cases l <;> simp [firstOf]
+
 theorem firstOf_length_le (l : Listener) (rs : List Report) : (firstOf l rs).length ≤ 1 := by
   cases l <;> simp [firstOf]
   omega
@@ -129,7 +132,7 @@ structure Mid (cfg : Cfg) (x : Nat) (q : Bool) (d : List Report) (s : St) : Prop
   pending : s.pending = some x
   raised : s.raised = false
   calls : s.callsMade = s.reports.length
-  notif : s.notified ++ d = firstOf cfg.listener s.reports
+  notif : ∃ l, s.notified ++ d = firstOf l s.reports   -- l: what was registered when the first report came
   shield : s.shield = List.replicate cfg.nObjs (some true)
   pushOn : s.pushOn = false
   inner : ∀ e ∈ s.inner, InnerOk cfg e
@@ -138,14 +141,22 @@ structure Mid (cfg : Cfg) (x : Nat) (q : Bool) (d : List Report) (s : St) : Prop
 theorem Mid.weaken {cfg : Cfg} {x q d s} (h : Mid cfg x q d s) : Mid cfg x false d s :=
   ⟨h.pending, h.raised, h.calls, h.notif, h.shield, h.pushOn, h.inner, by simp⟩
 
-/-- what the cached regime leaves alone -/
-def Same (s s' : St) : Prop :=
+/-- the cached task set and the close log stay what they are -/
+def Frame (s s' : St) : Prop :=
   s'.pending = s.pending ∧ s'.tasks = s.tasks ∧ s'.closeLog = s.closeLog
 
-theorem Same.refl (s : St) : Same s s := ⟨rfl, rfl, rfl⟩
+theorem Frame.refl (s : St) : Frame s s := ⟨rfl, rfl, rfl⟩
+
+theorem Frame.trans {a b c : St} (h1 : Frame a b) (h2 : Frame b c) : Frame a c :=
+  ⟨h2.1.trans h1.1, h2.2.1.trans h1.2.1, h2.2.2.trans h1.2.2⟩
+
+/-- what the cached regime leaves alone: the above and the registered listener -/
+def Same (s s' : St) : Prop := Frame s s' ∧ s'.listener = s.listener
+
+theorem Same.refl (s : St) : Same s s := ⟨Frame.refl s, rfl⟩
 
 theorem Same.trans {a b c : St} (h1 : Same a b) (h2 : Same b c) : Same a c :=
-  ⟨h2.1.trans h1.1, h2.2.1.trans h1.2.1, h2.2.2.trans h1.2.2⟩
+  ⟨Frame.trans h1.1 h2.1, h2.2.trans h1.2⟩
 
 /-- user code inside the DeviceListener callback, after the device has been blocked: every
     protected member answers `blocked`, `close()` answers the cached set -/
@@ -172,7 +183,7 @@ theorem runInner_cached {cfg : Cfg} {k : St → St} {x q d} (hk : Cached k) (dl 
           intro row hrow hprot hx
           simp only [apiOut, hrow, apiBlocked_of_closed cfg s row h.shield hprot hx, if_true]
       obtain ⟨a, b, c⟩ := ih _ h1 hf
-      exact ⟨a, b, Same.trans ⟨rfl, rfl, rfl⟩ c⟩
+      exact ⟨a, b, Same.trans ⟨⟨rfl, rfl, rfl⟩, rfl⟩ c⟩
     | close =>
       have hk' := hk s x h.pending
       have hstep : runInner cfg k dl s (InEv.close :: es)
@@ -190,33 +201,73 @@ theorem runInner_cached {cfg : Cfg} {k : St → St} {x q d} (hk : Cached k) (dl 
           intro _
           exact ⟨x, s.tasks, by simp [closeOut, h.pending, h.raised]⟩
       obtain ⟨a, b, c⟩ := ih _ h1 hf
-      exact ⟨a, b, Same.trans ⟨rfl, rfl, rfl⟩ c⟩
+      exact ⟨a, b, Same.trans ⟨⟨rfl, rfl, rfl⟩, rfl⟩ c⟩
 
 theorem handler_cached {cfg : Cfg} {k : St → St} {x d s} (hk : Cached k) (r : Report) (b : Beh)
     (h : Mid cfg x false (r :: d) s) (hf : s.flying = false) :
     Mid cfg x false d (handler cfg k s r b) ∧ Same s (handler cfg k s r b) ∧
       (b.raises = false → (handler cfg k s r b).flying = false) := by
   have h0 : Mid cfg x false d { s with notified := s.notified ++ [r] } :=
-    ⟨h.pending, h.raised, h.calls, by simpa using h.notif, h.shield, h.pushOn, h.inner, by simp⟩
+    ⟨h.pending, h.raised, h.calls, by obtain ⟨l, hl⟩ := h.notif; exact ⟨l, by simpa using hl⟩,
+      h.shield, h.pushOn, h.inner, by simp⟩
   obtain ⟨a, bb, c⟩ := runInner_cached (cfg := cfg) hk true b.inner _ h0 hf
   unfold handler
   simp only []
   split
   · rename_i hr
     refine ⟨⟨a.pending, a.raised, a.calls, a.notif, a.shield, a.pushOn, a.inner, by simp⟩,
-      Same.trans ⟨rfl, rfl, rfl⟩ c, ?_⟩
+      Same.trans ⟨⟨rfl, rfl, rfl⟩, rfl⟩ c, ?_⟩
     intro hb; rw [hb] at hr; exact absurd hr (by simp)
-  · exact ⟨a, Same.trans ⟨rfl, rfl, rfl⟩ c, fun _ => bb⟩
+  · exact ⟨a, Same.trans ⟨⟨rfl, rfl, rfl⟩, rfl⟩ c, fun _ => bb⟩
+
+/-! `reportWith` by cases, as equations (so that proofs never have to rewrite inside a state) -/
+
+theorem reportWith_over {cfg : Cfg} {k : St → St} {s : St} (r : Report) (b : Beh)
+    (h : cfg.maxCalls ≠ 0 ∧ s.callsMade + 1 > cfg.maxCalls) :
+    reportWith cfg k s r b = { s with reports := s.reports ++ [r], callsMade := s.callsMade + 1 } := by
+  unfold reportWith
+  simp only []
+  rw [if_pos h]
+
+theorem reportWith_none {cfg : Cfg} {k : St → St} {s : St} (r : Report) (b : Beh)
+    (h : ¬(cfg.maxCalls ≠ 0 ∧ s.callsMade + 1 > cfg.maxCalls)) (hl : s.listener = .none) :
+    reportWith cfg k s r b = k { s with reports := s.reports ++ [r], callsMade := s.callsMade + 1 } := by
+  unfold reportWith
+  simp only []
+  rw [if_neg h]
+  simp only [hl]
+
+theorem reportWith_dead {cfg : Cfg} {k : St → St} {s : St} (r : Report) (b : Beh)
+    (h : ¬(cfg.maxCalls ≠ 0 ∧ s.callsMade + 1 > cfg.maxCalls)) (hl : s.listener = .dead) :
+    reportWith cfg k s r b = { s with reports := s.reports ++ [r], callsMade := s.callsMade + 1 } := by
+  unfold reportWith
+  simp only []
+  rw [if_neg h]
+  simp only [hl]
+
+theorem reportWith_alive {cfg : Cfg} {k : St → St} {s : St} (r : Report) (b : Beh)
+    (h : ¬(cfg.maxCalls ≠ 0 ∧ s.callsMade + 1 > cfg.maxCalls)) (hl : s.listener = .alive) :
+    reportWith cfg k s r b =
+      if (k { s with reports := s.reports ++ [r], callsMade := s.callsMade + 1 }).flying then
+        k { s with reports := s.reports ++ [r], callsMade := s.callsMade + 1 }
+      else handler cfg k (k { s with reports := s.reports ++ [r], callsMade := s.callsMade + 1 }) r b := by
+  unfold reportWith
+  simp only []
+  rw [if_neg h]
+  simp only [hl]
+
+theorem listener_cases (s : St) :
+    s.listener = .none ∨ s.listener = .alive ∨ s.listener = .dead := by
+  cases s.listener <;> simp
 
 theorem reportWith_mid {cfg : Cfg} {k : St → St} {x q d s} (hm : cfg.maxCalls = 1)
     (hk : Cached k) (h : Mid cfg x q d s) (hf : s.flying = false) (r : Report) (b : Beh) :
     Mid cfg x q d (reportWith cfg k s r b) ∧ Same s (reportWith cfg k s r b) ∧
       (b.raises = false → (reportWith cfg k s r b).flying = false) := by
-  obtain ⟨hp, hr, hc, hn, hs, hpo, hin, hq⟩ := h
-  unfold reportWith
-  simp only [hm]
+  obtain ⟨hp, hr, hc, ⟨l0, hn⟩, hs, hpo, hin, hq⟩ := h
   by_cases h0 : s.callsMade = 0
   · -- first report ever: delivered
+    have hno : ¬(cfg.maxCalls ≠ 0 ∧ s.callsMade + 1 > cfg.maxCalls) := by rw [hm, h0]; simp
     have hq' : q = false := by
       cases q with
       | false => rfl
@@ -229,31 +280,28 @@ theorem reportWith_mid {cfg : Cfg} {k : St → St} {x q d s} (hm : cfg.maxCalls 
     have hnot : s.notified = [] := (List.append_eq_nil_iff.mp hn).1
     have hd : d = [] := (List.append_eq_nil_iff.mp hn).2
     subst hd
-    simp only [h0, Nat.zero_add, ne_eq, Nat.succ_ne_zero, not_false_eq_true, Nat.lt_irrefl,
-      and_false, if_false, gt_iff_lt]
-    have hk' := hk { s with reports := s.reports ++ [r], callsMade := 1 } x hp
-    cases hl' : cfg.listener with
-    | none =>
-      simp only [hk']
-      exact ⟨⟨hp, hr, by simp [hrs], by simp [hl', firstOf, hnot], hs, hpo, hin, by simp⟩,
-        ⟨rfl, rfl, rfl⟩, fun _ => hf⟩
-    | alive =>
-      simp only [hk']
+    have hk' := hk { s with reports := s.reports ++ [r], callsMade := s.callsMade + 1 } x hp
+    rcases listener_cases s with hl' | hl' | hl'
+    · rw [reportWith_none r b hno hl', hk']
+      exact ⟨⟨hp, hr, by simp [hrs, h0], ⟨.none, by simp [firstOf, hnot]⟩, hs, hpo, hin, by simp⟩,
+        ⟨⟨rfl, rfl, rfl⟩, rfl⟩, fun _ => hf⟩
+    · rw [reportWith_alive r b hno hl', hk']
       rw [if_neg (by simp [hf])]
-      have hmid : Mid cfg x false [r] { s with reports := s.reports ++ [r], callsMade := 1 } :=
-        ⟨hp, hr, by simp [hrs], by simp [hl', firstOf, hnot, hrs], hs, hpo, hin, by simp⟩
+      have hmid : Mid cfg x false [r]
+          { s with reports := s.reports ++ [r], callsMade := s.callsMade + 1 } :=
+        ⟨hp, hr, by simp [hrs, h0], ⟨.alive, by simp [firstOf, hnot, hrs]⟩, hs, hpo, hin, by simp⟩
       obtain ⟨a, bb, c⟩ := handler_cached (cfg := cfg) hk r b hmid hf
-      exact ⟨a, Same.trans ⟨rfl, rfl, rfl⟩ bb, c⟩
-    | dead =>
-      exact ⟨⟨hp, hr, by simp [hrs], by simp [hl', firstOf, hnot], hs, hpo, hin, by simp⟩,
-        ⟨rfl, rfl, rfl⟩, fun _ => hf⟩
+      exact ⟨a, Same.trans ⟨⟨rfl, rfl, rfl⟩, rfl⟩ bb, c⟩
+    · rw [reportWith_dead r b hno hl']
+      exact ⟨⟨hp, hr, by simp [hrs, h0], ⟨.dead, by simp [firstOf, hnot]⟩, hs, hpo, hin, by simp⟩,
+        ⟨⟨rfl, rfl, rfl⟩, rfl⟩, fun _ => hf⟩
   · -- max_calls exhausted: swallowed
     have hne : s.reports ≠ [] := by
       intro he; rw [he] at hc; simp at hc; exact h0 hc
-    have hgt : s.callsMade + 1 > 1 := by omega
-    simp only [ne_eq, Nat.succ_ne_zero, not_false_eq_true, hgt, and_self, if_true]
-    exact ⟨⟨hp, hr, by simp [hc], by simpa [firstOf_append_of_ne _ _ _ hne] using hn, hs, hpo, hin,
-      fun hq1 => ⟨by simp, (hq hq1).2⟩⟩, ⟨rfl, rfl, rfl⟩, fun _ => hf⟩
+    have hover : cfg.maxCalls ≠ 0 ∧ s.callsMade + 1 > cfg.maxCalls := by rw [hm]; omega
+    rw [reportWith_over r b hover]
+    exact ⟨⟨hp, hr, by simp [hc], ⟨l0, by simpa [firstOf_append_of_ne _ _ _ hne] using hn⟩, hs, hpo, hin,
+      fun hq1 => ⟨by simp, (hq hq1).2⟩⟩, ⟨⟨rfl, rfl, rfl⟩, rfl⟩, fun _ => hf⟩
 
 /-- the reports one protocol emits while it is being closed -/
 abbrev emit (cfg : Cfg) (k : St → St) (i : Nat) (s : St) (rb : Kind × Beh) : St :=
@@ -302,7 +350,7 @@ theorem closeProtos_mid {cfg : Cfg} {k : St → St} {x q d} (hm : cfg.maxCalls =
       ⟨h.pending, h.raised, h.calls, h.notif, h.shield, h.pushOn, h.inner, h.quiet⟩
     obtain ⟨h2, hsame, hben2⟩ := foldl_emit_mid hm hk i p.onClose _ h1
     have hlog2 : (p.onClose.foldl (emit cfg k i) { s with closeLog := s.closeLog ++ [i] }).closeLog
-        = s.closeLog ++ [i] := hsame.2.2
+        = s.closeLog ++ [i] := hsame.1.2.2
     show Mid cfg x q d (closeProtos cfg k i (p :: ps) s) ∧ _
     rw [show closeProtos cfg k i (p :: ps) s =
       (if (p.onClose.foldl (emit cfg k i) { s with closeLog := s.closeLog ++ [i] }).flying then
@@ -343,7 +391,7 @@ def BenignProtos (cfg : Cfg) : Prop := ∀ p ∈ cfg.protos, ∀ rb ∈ p.onClos
 /-- `close()` on an open device, entered with `d` still to be delivered by the caller -/
 theorem closeF_open {cfg : Cfg} (wf : WF cfg) (f : Nat) (q : Bool) (d : List Report) (s : St)
     (hp : s.pending = none) (hr : s.raised = false) (hc : s.callsMade = s.reports.length)
-    (hn : s.notified ++ d = firstOf cfg.listener s.reports)
+    (hn : ∃ l, s.notified ++ d = firstOf l s.reports)
     (hs : s.shield = List.replicate cfg.nObjs (some false)) (hl : s.closeLog = [])
     (hin : ∀ e ∈ s.inner, InnerOk cfg e) (hq : q = true → 1 ≤ s.callsMade ∧ s.flying = false) :
     Mid cfg s.nextId q d (closeF cfg (f + 2) s) ∧
@@ -364,13 +412,98 @@ theorem closeF_open {cfg : Cfg} (wf : WF cfg) (f : Nat) (q : Bool) (d : List Rep
     closeProtos_mid wf.maxCalls (cached_closeF cfg f) cfg.protos 0 _ h0
   exact ⟨a, ⟨j, hj, by simpa [hl] using hlog, hfull⟩, fun hb hf => c hb hf⟩
 
+/-! ### nothing but the setter touches the registered listener -/
+
+def KeepL (k : St → St) : Prop := ∀ s, (k s).listener = s.listener
+
+theorem runInner_keepL {cfg : Cfg} {k : St → St} (hk : KeepL k) (dl : Bool) (es : List InEv) :
+    ∀ s, (runInner cfg k dl s es).listener = s.listener := by
+  induction es with
+  | nil => intro s; rfl
+  | cons e es ih =>
+    intro s
+    cases e with
+    | api m => simp only [runInner]; rw [ih]
+    | close =>
+      simp only [runInner]
+      split
+      · rw [ih]; exact hk s
+      · rw [ih]; exact hk s
+
+theorem handler_keepL {cfg : Cfg} {k : St → St} (hk : KeepL k) (s : St) (r : Report) (b : Beh) :
+    (handler cfg k s r b).listener = s.listener := by
+  unfold handler
+  simp only []
+  split
+  · exact runInner_keepL hk true b.inner _
+  · exact runInner_keepL hk true b.inner _
+
+theorem reportWith_keepL {cfg : Cfg} {k : St → St} (hk : KeepL k) (s : St) (r : Report) (b : Beh) :
+    (reportWith cfg k s r b).listener = s.listener := by
+  by_cases h : cfg.maxCalls ≠ 0 ∧ s.callsMade + 1 > cfg.maxCalls
+  · rw [reportWith_over r b h]
+  · rcases listener_cases s with hl | hl | hl
+    · rw [reportWith_none r b h hl]; exact hk _
+    · rw [reportWith_alive r b h hl]
+      split
+      · exact hk _
+      · rw [handler_keepL hk]; exact hk _
+    · rw [reportWith_dead r b h hl]
+
+theorem foldl_emit_keepL {cfg : Cfg} {k : St → St} (hk : KeepL k) (i : Nat)
+    (rbs : List (Kind × Beh)) : ∀ s, (rbs.foldl (emit cfg k i) s).listener = s.listener := by
+  induction rbs with
+  | nil => intro s; rfl
+  | cons rb rbs ih =>
+    intro s
+    simp only [List.foldl_cons]
+    rw [ih]
+    unfold emit
+    split
+    · rfl
+    · exact reportWith_keepL hk s _ _
+
+theorem closeProtos_keepL {cfg : Cfg} {k : St → St} (hk : KeepL k) (ps : List Proto) :
+    ∀ i s, (closeProtos cfg k i ps s).listener = s.listener := by
+  induction ps with
+  | nil => intro i s; rfl
+  | cons p ps ih =>
+    intro i s
+    have h2 := foldl_emit_keepL (cfg := cfg) hk i p.onClose { s with closeLog := s.closeLog ++ [i] }
+    show (if (p.onClose.foldl (emit cfg k i) { s with closeLog := s.closeLog ++ [i] }).flying then
+        p.onClose.foldl (emit cfg k i) { s with closeLog := s.closeLog ++ [i] }
+       else closeProtos cfg k (i + 1) ps
+        { (p.onClose.foldl (emit cfg k i) { s with closeLog := s.closeLog ++ [i] }) with
+          tasks := (p.onClose.foldl (emit cfg k i) { s with closeLog := s.closeLog ++ [i] }).tasks + p.tasks }).listener
+      = s.listener
+    split
+    · exact h2
+    · rw [ih]; exact h2
+
+theorem closeF_keepL (cfg : Cfg) : ∀ f, KeepL (closeF cfg f) := by
+  intro f
+  induction f with
+  | zero => intro s; rfl
+  | succ f ih =>
+    intro s
+    rw [closeF]
+    split
+    · rfl
+    · split
+      · rfl
+      · dsimp only
+        split
+        · rfl
+        · rw [closeProtos_keepL ih]; rfl
+
 /-! ### the invariant between events -/
 
 /-- everything except "no user exception in flight" -/
 structure Inv' (cfg : Cfg) (s : St) : Prop where
   raised : s.raised = false
   calls : s.callsMade = s.reports.length
-  notif : s.notified = firstOf cfg.listener s.reports
+  notif : ∃ l, s.notified = firstOf l s.reports    -- l: what was registered when the first report came
+  live : s.listener ≠ .dead
   opened : s.pending = none →
     s.reports = [] ∧ s.closeLog = [] ∧ s.shield = List.replicate cfg.nObjs (some false)
   closed : ∀ x, s.pending = some x →
@@ -388,19 +521,22 @@ theorem range'_prefix (j n : Nat) (h : j ≤ n) : List.range' 0 j <+: List.range
 
 theorem Inv'.of_mid {cfg : Cfg} {x q s} (h : Mid cfg x q [] s)
     (hlog : s.closeLog <+: List.range' 0 cfg.protos.length)
-    (hben : BenignProtos cfg → s.closeLog = List.range' 0 cfg.protos.length) : Inv' cfg s :=
-  ⟨h.raised, h.calls, by simpa using h.notif, by simp [h.pending],
+    (hben : BenignProtos cfg → s.closeLog = List.range' 0 cfg.protos.length)
+    (hlive : s.listener ≠ .dead) : Inv' cfg s :=
+  ⟨h.raised, h.calls, by obtain ⟨l, hl⟩ := h.notif; exact ⟨l, by simpa using hl⟩, hlive, by simp [h.pending],
     fun _ _ => ⟨h.shield, h.pushOn, hlog, hben⟩, h.inner⟩
 
 theorem Inv'.to_mid {cfg : Cfg} {x s} (h : Inv' cfg s) (hp : s.pending = some x) :
     Mid cfg x false [] s :=
-  ⟨hp, h.raised, h.calls, by simp [h.notif], (h.closed x hp).1, (h.closed x hp).2.1, h.inner, by simp⟩
+  ⟨hp, h.raised, h.calls, by obtain ⟨l, hl⟩ := h.notif; exact ⟨l, by simp [hl]⟩, (h.closed x hp).1,
+    (h.closed x hp).2.1, h.inner, by simp⟩
 
 theorem Inv'.clear {cfg : Cfg} {s : St} (h : Inv' cfg s) : Inv cfg { s with flying := false } :=
-  ⟨⟨h.raised, h.calls, h.notif, h.opened, h.closed, h.inner⟩, rfl⟩
+  ⟨⟨h.raised, h.calls, h.notif, h.live, h.opened, h.closed, h.inner⟩, rfl⟩
 
-theorem inv_init (cfg : Cfg) : Inv cfg (init cfg) :=
-  ⟨⟨rfl, rfl, by simp [init, firstOf_nil], fun _ => ⟨rfl, rfl, rfl⟩, by simp [init], by simp [init]⟩, rfl⟩
+theorem inv_init {cfg : Cfg} (wf : WF cfg) : Inv cfg (init cfg) :=
+  ⟨⟨rfl, rfl, ⟨cfg.listener, by simp [init, firstOf_nil]⟩, wf.live, fun _ => ⟨rfl, rfl, rfl⟩, by simp [init],
+    by simp [init]⟩, rfl⟩
 
 /-- the device has been closed: `_pending_tasks` is set -/
 def Closed (s : St) : Prop := ∃ x, s.pending = some x
@@ -416,9 +552,10 @@ theorem inv_close {cfg : Cfg} (wf : WF cfg) {s : St} (h : Inv cfg s) :
   | none =>
     obtain ⟨hrs, hlog, hsh⟩ := h.opened hp
     obtain ⟨hm, ⟨j, hj, hl, hfull⟩, hben⟩ :=
-      closeF_open wf 0 false [] s hp h.raised h.calls (by simp [h.notif]) hsh hlog h.inner (by simp)
-    refine ⟨Inv'.of_mid hm (by rw [hl]; exact range'_prefix j _ hj) ?_, ⟨_, hm.pending⟩,
-      fun hb => hben hb hfl⟩
+      closeF_open wf 0 false [] s hp h.raised h.calls
+        (by obtain ⟨l, hl⟩ := h.notif; exact ⟨l, by simp [hl]⟩) hsh hlog h.inner (by simp)
+    refine ⟨Inv'.of_mid hm (by rw [hl]; exact range'_prefix j _ hj) ?_
+      (by rw [closeF_keepL cfg topFuel s]; exact h.live), ⟨_, hm.pending⟩, fun hb => hben hb hfl⟩
     intro hb
     rw [hl, hfull (hben hb hfl)]
 
@@ -426,44 +563,45 @@ theorem inv_report {cfg : Cfg} (wf : WF cfg) {s : St} (h : Inv cfg s) (r : Repor
     Inv' cfg (reportWith cfg (closeF cfg topFuel) s r b) ∧
       Closed (reportWith cfg (closeF cfg topFuel) s r b) := by
   obtain ⟨h, hfl⟩ := h
+  have hlive : (reportWith cfg (closeF cfg topFuel) s r b).listener ≠ .dead := by
+    rw [reportWith_keepL (closeF_keepL cfg topFuel)]; exact h.live
   cases hp : s.pending with
   | some x =>
     obtain ⟨a, bb, _⟩ := reportWith_mid wf.maxCalls (cached_closeF cfg 1) (h.to_mid hp) hfl r b
     obtain ⟨_, _, hlg, hbn⟩ := h.closed x hp
-    exact ⟨Inv'.of_mid a (by rw [bb.2.2]; exact hlg) (fun hb => by rw [bb.2.2]; exact hbn hb),
+    exact ⟨Inv'.of_mid a (by rw [bb.1.2.2]; exact hlg) (fun hb => by rw [bb.1.2.2]; exact hbn hb) hlive,
       ⟨x, a.pending⟩⟩
   | none =>
     obtain ⟨hrs, hlog, hsh⟩ := h.opened hp
     have hc0 : s.callsMade = 0 := by rw [h.calls, hrs]; rfl
-    have hnot : s.notified = [] := by rw [h.notif, hrs, firstOf_nil]
-    unfold reportWith
-    simp only [wf.maxCalls, hc0, Nat.zero_add, ne_eq, Nat.succ_ne_zero, not_false_eq_true,
-      gt_iff_lt, Nat.lt_irrefl, and_false, if_false]
-    cases hl : cfg.listener with
-    | dead => exact absurd hl wf.live
-    | none =>
-      simp only []
+    have hnot : s.notified = [] := by obtain ⟨l, hl⟩ := h.notif; rw [hl, hrs, firstOf_nil]
+    have hno : ¬(cfg.maxCalls ≠ 0 ∧ s.callsMade + 1 > cfg.maxCalls) := by
+      rw [wf.maxCalls, hc0]; simp
+    rcases listener_cases s with hl | hl | hl
+    · rw [reportWith_none r b hno hl] at hlive ⊢
       obtain ⟨hm, ⟨j, hj, hlg, hfull⟩, _⟩ :=
-        closeF_open wf 0 true [] { s with reports := s.reports ++ [r], callsMade := 1 } hp h.raised
-          (by simp [hrs]) (by simp [hl, firstOf, hnot]) hsh hlog h.inner (fun _ => ⟨by simp, hfl⟩)
-      have hff := (hm.quiet rfl).2
-      exact ⟨Inv'.of_mid hm (by rw [hlg]; exact range'_prefix j _ hj)
-        (fun _ => by rw [hlg, hfull hff]), ⟨_, hm.pending⟩⟩
-    | alive =>
-      simp only []
-      obtain ⟨hm, ⟨j, hj, hlg, hfull⟩, _⟩ :=
-        closeF_open wf 0 true [r] { s with reports := s.reports ++ [r], callsMade := 1 } hp
-          h.raised (by simp [hrs]) (by simp [hl, firstOf, hnot, hrs]) hsh hlog h.inner
+        closeF_open wf 0 true [] { s with reports := s.reports ++ [r], callsMade := s.callsMade + 1 }
+          hp h.raised (by simp [hrs, hc0]) ⟨.none, by simp [firstOf, hnot]⟩ hsh hlog h.inner
           (fun _ => ⟨by simp, hfl⟩)
       have hff := (hm.quiet rfl).2
-      have hff' : (closeF cfg topFuel { s with reports := s.reports ++ [r], callsMade := 1 }).flying
-          = false := hff
-      simp only [hff', Bool.false_eq_true, if_false]
+      exact ⟨Inv'.of_mid hm (by rw [hlg]; exact range'_prefix j _ hj)
+        (fun _ => by rw [hlg, hfull hff]) hlive, ⟨_, hm.pending⟩⟩
+    · rw [reportWith_alive r b hno hl] at hlive ⊢
+      obtain ⟨hm, ⟨j, hj, hlg, hfull⟩, _⟩ :=
+        closeF_open wf 0 true [r] { s with reports := s.reports ++ [r], callsMade := s.callsMade + 1 }
+          hp h.raised (by simp [hrs, hc0]) ⟨.alive, by simp [firstOf, hnot, hrs]⟩ hsh hlog h.inner
+          (fun _ => ⟨by simp, hfl⟩)
+      have hff := (hm.quiet rfl).2
+      have hff' : (closeF cfg topFuel
+          { s with reports := s.reports ++ [r], callsMade := s.callsMade + 1 }).flying = false := hff
+      rw [if_neg (by simp [hff'])] at hlive ⊢
       obtain ⟨a, bb, _⟩ := handler_cached (cfg := cfg) (cached_closeF cfg 1) r b hm.weaken hff
-      have hlg' : (closeF cfg topFuel { s with reports := s.reports ++ [r], callsMade := 1 }).closeLog
+      have hlg' : (closeF cfg topFuel
+          { s with reports := s.reports ++ [r], callsMade := s.callsMade + 1 }).closeLog
           = List.range' 0 j := hlg
-      exact ⟨Inv'.of_mid a (by rw [bb.2.2, hlg']; exact range'_prefix j _ hj)
-        (fun _ => by rw [bb.2.2, hlg', hfull hff]), ⟨_, a.pending⟩⟩
+      exact ⟨Inv'.of_mid a (by rw [bb.1.2.2, hlg']; exact range'_prefix j _ hj)
+        (fun _ => by rw [bb.1.2.2, hlg', hfull hff]) hlive, ⟨_, a.pending⟩⟩
+    · exact absurd hl h.live
 
 /-- user code inside a PushListener callback: API calls and `close()` calls like any other -/
 theorem inv_runInner {cfg : Cfg} (wf : WF cfg) (es : List InEv) :
@@ -476,7 +614,7 @@ theorem inv_runInner {cfg : Cfg} (wf : WF cfg) (es : List InEv) :
     | api m =>
       simp only [runInner]
       apply ih
-      refine ⟨⟨h.1.raised, h.1.calls, h.1.notif, h.1.opened, h.1.closed, ?_⟩, h.2⟩
+      refine ⟨⟨h.1.raised, h.1.calls, h.1.notif, h.1.live, h.1.opened, h.1.closed, ?_⟩, h.2⟩
       intro e he
       rcases List.mem_append.mp he with he | he
       · exact h.1.inner e he
@@ -488,7 +626,7 @@ theorem inv_runInner {cfg : Cfg} (wf : WF cfg) (es : List InEv) :
       simp only [runInner]
       split
       · apply ih
-        refine ⟨⟨h'.raised, h'.calls, h'.notif, h'.opened, h'.closed, ?_⟩, rfl⟩
+        refine ⟨⟨h'.raised, h'.calls, h'.notif, h'.live, h'.opened, h'.closed, ?_⟩, rfl⟩
         intro e he
         rcases List.mem_append.mp he with he | he
         · exact h'.inner e he
@@ -497,7 +635,7 @@ theorem inv_runInner {cfg : Cfg} (wf : WF cfg) (es : List InEv) :
           intro hc; simp at hc
       · rename_i hnf
         apply ih
-        refine ⟨⟨h'.raised, h'.calls, h'.notif, h'.opened, h'.closed, ?_⟩, by simpa using hnf⟩
+        refine ⟨⟨h'.raised, h'.calls, h'.notif, h'.live, h'.opened, h'.closed, ?_⟩, by simpa using hnf⟩
         intro e he
         rcases List.mem_append.mp he with he | he
         · exact h'.inner e he
@@ -521,13 +659,20 @@ theorem inv_step {cfg : Cfg} (wf : WF cfg) {s : St} (h : Inv cfg s) (e : Ev) :
     · exact h'.clear
     · rename_i hnf; exact ⟨h', by simpa using hnf⟩
   | api m => simp only [step]; split <;> (try split) <;> exact h
-  | dropDevice => exact ⟨⟨h.1.raised, h.1.calls, h.1.notif, h.1.opened, h.1.closed, h.1.inner⟩, h.2⟩
+  | dropDevice => exact ⟨⟨h.1.raised, h.1.calls, h.1.notif, h.1.live, h.1.opened, h.1.closed, h.1.inner⟩, h.2⟩
+  | setListener b =>
+    -- the setter replaces the reference and nothing else: the budget (calls_made) stays consumed
+    refine ⟨⟨h.1.raised, h.1.calls, h.1.notif, ?_, h.1.opened, h.1.closed, h.1.inner⟩, h.2⟩
+    show (if b then Listener.alive else Listener.none) ≠ Listener.dead
+    cases b <;> simp
+  | setPushListener b =>
+    exact ⟨⟨h.1.raised, h.1.calls, h.1.notif, h.1.live, h.1.opened, h.1.closed, h.1.inner⟩, h.2⟩
   | pushStart =>
     simp only [step]
     split
     · exact h
     · rename_i hb
-      refine ⟨⟨h.1.raised, h.1.calls, h.1.notif, h.1.opened, ?_, h.1.inner⟩, h.2⟩
+      refine ⟨⟨h.1.raised, h.1.calls, h.1.notif, h.1.live, h.1.opened, ?_, h.1.inner⟩, h.2⟩
       intro x hx
       have := isBlocking_closed s cfg.nObjs cfg.pushObj (h.1.closed x hx).1 wf.push
       exact absurd this hb
@@ -535,7 +680,7 @@ theorem inv_step {cfg : Cfg} (wf : WF cfg) {s : St} (h : Inv cfg s) (e : Ev) :
     simp only [step]
     split
     · exact h
-    · exact ⟨⟨h.1.raised, h.1.calls, h.1.notif, h.1.opened,
+    · exact ⟨⟨h.1.raised, h.1.calls, h.1.notif, h.1.live, h.1.opened,
         fun x hx => ⟨(h.1.closed x hx).1, rfl, (h.1.closed x hx).2.2⟩, h.1.inner⟩, h.2⟩
   | push i b =>
     simp only [step]
@@ -688,6 +833,8 @@ theorem step_grows (cfg : Cfg) (s : St) (e : Ev) : Grows s (step cfg s e).1 := b
     · exact this
   | api m => simp only [step]; split <;> (try split) <;> exact Grows.refl s
   | dropDevice => exact ⟨List.prefix_refl _, List.prefix_refl _, id⟩
+  | setListener b => exact ⟨List.prefix_refl _, List.prefix_refl _, id⟩
+  | setPushListener b => exact ⟨List.prefix_refl _, List.prefix_refl _, id⟩
   | pushStart => simp only [step]; split <;> exact Grows.refl s
   | pushStop => simp only [step]; split <;> exact Grows.refl s
   | push i b =>
@@ -724,21 +871,23 @@ theorem closed_of_closing {cfg : Cfg} (wf : WF cfg) {s : St} (h : Inv cfg s) (e 
     split <;> exact hx
   | api m => simp [Ev.isClosing] at he
   | dropDevice => simp [Ev.isClosing] at he
+  | setListener b => simp [Ev.isClosing] at he
+  | setPushListener b => simp [Ev.isClosing] at he
   | pushStart => simp [Ev.isClosing] at he
   | pushStop => simp [Ev.isClosing] at he
   | push i b => simp [Ev.isClosing] at he
 
 theorem runInner_closed_frame {cfg : Cfg} (es : List InEv) :
     ∀ s x, Inv' cfg s → s.flying = false → s.pending = some x →
-      Same s (runInner cfg (closeF cfg topFuel) false s es) := by
+      Frame s (runInner cfg (closeF cfg topFuel) false s es) := by
   intro s x h hf hp
-  exact (runInner_cached (cfg := cfg) (cached_closeF cfg 1) false es s (h.to_mid hp) hf).2.2
+  exact (runInner_cached (cfg := cfg) (cached_closeF cfg 1) false es s (h.to_mid hp) hf).2.2.1
 
 theorem step_closed_frame {cfg : Cfg} (wf : WF cfg) (s : St) (x : Nat) (h : Inv cfg s)
-    (hp : s.pending = some x) (e : Ev) : Same s (step cfg s e).1 := by
+    (hp : s.pending = some x) (e : Ev) : Frame s (step cfg s e).1 := by
   cases e with
   | report i k b =>
-    have := (reportWith_mid wf.maxCalls (cached_closeF cfg 1) (h.1.to_mid hp) h.2 ⟨i, k⟩ b).2.1
+    have := (reportWith_mid wf.maxCalls (cached_closeF cfg 1) (h.1.to_mid hp) h.2 ⟨i, k⟩ b).2.1.1
     simp only [step]
     split
     · exact this
@@ -746,26 +895,28 @@ theorem step_closed_frame {cfg : Cfg} (wf : WF cfg) (s : St) (x : Nat) (h : Inv 
   | userClose =>
     have hc : closeF cfg topFuel s = s := closeF_cached cfg 1 s x hp
     simp only [step, hc]
-    split <;> exact Same.refl s
-  | api m => simp only [step]; split <;> (try split) <;> exact Same.refl s
+    split <;> exact Frame.refl s
+  | api m => simp only [step]; split <;> (try split) <;> exact Frame.refl s
   | dropDevice => exact ⟨rfl, rfl, rfl⟩
-  | pushStart => simp only [step]; split <;> exact Same.refl s
-  | pushStop => simp only [step]; split <;> exact Same.refl s
+  | setListener b => exact ⟨rfl, rfl, rfl⟩
+  | setPushListener b => exact ⟨rfl, rfl, rfl⟩
+  | pushStart => simp only [step]; split <;> exact Frame.refl s
+  | pushStop => simp only [step]; split <;> exact Frame.refl s
   | push i b =>
     simp only [step]
     split
     · exact runInner_closed_frame b.inner s x h.1 h.2 hp
-    · exact Same.refl s
+    · exact Frame.refl s
 
 theorem run_closed_frame {cfg : Cfg} (wf : WF cfg) (evs : List Ev) :
-    ∀ s x, Inv cfg s → s.pending = some x → Same s (run cfg s evs) := by
+    ∀ s x, Inv cfg s → s.pending = some x → Frame s (run cfg s evs) := by
   induction evs with
-  | nil => intro s x _ _; exact Same.refl s
+  | nil => intro s x _ _; exact Frame.refl s
   | cons e es ih =>
     intro s x h hp
     have h1 := step_closed_frame wf s x h hp e
     have hp' : (step cfg s e).1.pending = some x := by rw [h1.1]; exact hp
-    exact Same.trans h1 (ih _ x (inv_step wf h e) hp')
+    exact Frame.trans h1 (ih _ x (inv_step wf h e) hp')
 
 theorem closed_run {cfg : Cfg} (wf : WF cfg) (evs : List Ev) (s : St) (hi : Inv cfg s)
     (h : Closed s) : Closed (run cfg s evs) := by
